@@ -9,16 +9,16 @@ FUNCS = ["SCPI_Parse", "processCommand", "findCommandHeader", "writeDelimiter", 
          "SCPI_ResultArbitraryBlockData", "scpiParser_detectProgramMessageUnit", "composeCompoundCommand", "matchCommand"]
 
 
-def mk(tmpl, timeout=600, maxi=3):
+def mk(tmpl, timeout=600, maxi=3, kbase=0):
     k = len(tmpl)
-    outmax = k * (maxi * 5 + maxi) + k + 4
-    return Case("tmpl-" + tmpl + "-i%d" % maxi, H, SRCS, defs=['-DTEMPLATE="%s"' % tmpl, "-DMAXI=%d" % maxi, "-DOUTMAX=%d" % outmax], unwind=outmax + 3,
+    outmax = k * (maxi * 6 + maxi) + k + 4
+    return Case("tmpl-" + tmpl + "-i%d-k%d" % (maxi, kbase), H, SRCS, defs=['-DTEMPLATE="%s"' % tmpl, "-DMAXI=%d" % maxi, "-DOUTMAX=%d" % outmax, "-DKBASE=%d" % kbase], unwind=outmax + 3,
                 unwindset={"hx_write.0": 8, "SCPI_RegSet.0": 4, "SCPI_ErrorPushEx.0": 10, "findCommandHeader.0": 14, "harness.3": 130, "app.0": 8,
-                           "strlen.0": 8, "strnpbrk.0": 6, "strnpbrk.1": 6},
+                           "strlen.0": 8, "strnpbrk.0": 6, "strnpbrk.1": 6, "UInt64ToStrBaseSign.0": 66, "UInt64ToStrBaseSign.1": 22, "UInt32ToStrBaseSign.0": 34, "UInt32ToStrBaseSign.1": 12},
                 timeout=timeout, functions=FUNCS, optional_witness=([] if "Q" in tmpl else ["responded"]),
                 bounds=dict(message="concrete template %s (Q = query unit, C = command unit), i.e. the text %s" % (
                     tmpl, ";".join(chr(65 + i) + ("?" if c == "Q" else "") for i, c in enumerate(tmpl)) + "\\r\\n"),
-                    handlers="symbolic: 0..%d items per query" % maxi + " from {bool,int32,text,mnemonic,block,streamed block}, error pushed at any point or not, OK or ERR",
+                    handlers="symbolic: 0..%d items per query" % maxi + " from " + ("{bool, int32, text, mnemonic, block, streamed block}" if kbase == 0 else "{uint64 hex, uint32 binary, int64, double, float, uint64 octal}") + ", error pushed at any point or not, OK or ERR",
                     carried_state="arbitrary first_output / output_count / input_count / arbitrary_remaining / cmd_error before the call"))
 
 
@@ -27,7 +27,8 @@ def cases(tier):
     cs = []
     for k in range(1, maxk + 1):
         for t in itertools.product("QC", repeat=k):
-            cs.append(mk("".join(t), 600 if tier == "quick" else 2400, 2 if (tier == "quick" and k == 3) else 3))
+            for kb in (0, 6):
+                cs.append(mk("".join(t), 600 if tier == "quick" else 2400, (3 if k == 1 else 2) if tier == "quick" else 3, kb))
     if tier != "quick":
         for t in ("QQQQQ", "QCQCQ", "CQQQC", "QQQQQQ", "QCQQCQ"):
             cs.append(mk(t, 3000))
